@@ -261,7 +261,12 @@ class R(object):
             if i > 0:
                 if self.draw(st.integers(0, 6)) == 0:
                     # the backslash may follow the token directly and the next line may start in column one: the two tokens stay apart
-                    line += self.ws(self.draw(st.sampled_from([1, 1, 0]))) + '\\' + self.draw(st.sampled_from(['', '', ' ', '\t'])) + '\n' + self.ws(0)
+                    if self.draw(st.integers(0, 2)) == 0:
+                        # the tight form: nothing before the backslash, nothing after it, the next line starts in column one
+                        line += '\\\n'
+                        self.feats.add('continuation-tight')
+                    else:
+                        line += self.ws(self.draw(st.sampled_from([1, 1, 0]))) + '\\' + self.draw(st.sampled_from(['', '', ' ', '\t'])) + '\n' + self.ws(0)
                     cont = True
                 else:
                     line += self.ws(1)
